@@ -4,10 +4,10 @@
 (* ID of one real task:                                                      *)
 (*   {"ev":"Reset","id":..,"setup":{..cfg..}}                                      *)
 (*   {"ev":"S","pts":[{"c":[b,b,b],"r":[b,b,b],"t":k}..],"tmax":k,          *)
-(*    "o":[[level,time,duration,pointIdx]..]  events a handler on the topic  *)
-(*                                            saw for this step,             *)
-(*    "oid":[id..], "nf":n, "f":[[level,duration]..], "fid":[id..]}          *)
-(*                                            data forwarded downstream      *)
+(*    "o":[[level,time,duration,pointIdx,previousLevel,msgOK,recoverable]..] *)
+(*                      events a handler on the topic saw for this step,     *)
+(*    "oid":[id..], "nf":n, "f":[[levelField,durationField,levelTag]..],     *)
+(*    "fid":[idField..], "ftid":[idTag..]}     data forwarded downstream      *)
 (*                                                                           *)
 (* VERDICT level: every step is judged by RefJudge - the documented machine  *)
 (* (level rule, emit-iff, filters, level/time/duration of every event);      *)
@@ -21,15 +21,15 @@
 (***************************************************************************)
 EXTENDS AlertNode, TraceCommon
 
-VARIABLES l, clk, drift
-tvars == <<vars, l, clk, drift>>
+VARIABLES l, clk, drift, sent    \* sent: level of the last event delivered for the ID (what the topic remembers)
+tvars == <<vars, l, clk, drift, sent>>
 
 DefaultCfg == MkCfg(<<FALSE, FALSE, TRUE>>, <<FALSE, FALSE, FALSE>>, FALSE, 0, FALSE, FALSE, FALSE, 0, 0, 2, FALSE)
 
 TrInit ==
     /\ l = 1 /\ HWInit
     /\ cfg = DefaultCfg /\ im = ImplInit(DefaultCfg) /\ rf = RefInit(DefaultCfg)
-    /\ out = None /\ chk = ChkInit /\ clk = 0 /\ drift = FALSE
+    /\ out = None /\ chk = ChkInit /\ clk = 0 /\ drift = FALSE /\ sent = 0
 
 Ln == Trace[l]
 IsEv(e) == l <= Len(Trace) /\ Ln.ev = e /\ l' = l + 1
@@ -40,19 +40,25 @@ TrReset ==
     /\ IsEv("Reset")
     /\ cfg' = CfgOf(Ln.setup)
     /\ im' = ImplInit(cfg') /\ rf' = RefInit(cfg')
-    /\ out' = None /\ chk' = ChkInit /\ clk' = 0 /\ drift' = FALSE
+    /\ out' = None /\ chk' = ChkInit /\ clk' = 0 /\ drift' = FALSE /\ sent' = 0
 
 (* The forwarded data is a second view of the same event: forwarded iff an   *)
-(* event was sent, every forwarded point carries the event's level,          *)
-(* duration and ID.                                                          *)
+(* event was sent, every forwarded point carries the event's level (field    *)
+(* and tag), duration and ID (field and tag).  The event itself carries the  *)
+(* ID, the level the handlers last saw for this ID as its previous level,    *)
+(* the default message "<id> is <LEVEL>" and recoverable = ~noRecoveries.    *)
 WellFormed(ln, n) ==
     /\ Len(ln.o) <= 1
     /\ ln.nf = Len(ln.o)
     /\ \A i \in DOMAIN ln.oid : ln.oid[i] = ln.id
-    /\ \A i \in DOMAIN ln.fid : ln.fid[i] = ln.id
+    /\ \A i \in DOMAIN ln.fid : ln.fid[i] = ln.id /\ ln.ftid[i] = ln.id
     /\ IF ln.o = <<>> THEN ln.f = <<>>
        ELSE /\ Len(ln.f) = n
-            /\ \A i \in DOMAIN ln.f : ln.f[i][1] = ln.o[1][1] /\ ln.f[i][2] = ln.o[1][3]
+            /\ \A i \in DOMAIN ln.f :
+                  ln.f[i][1] = ln.o[1][1] /\ ln.f[i][2] = ln.o[1][3] /\ ln.f[i][3] = ln.o[1][1]
+            /\ ln.o[1][5] = sent
+            /\ ln.o[1][6] = 1
+            /\ ln.o[1][7] = (IF cfg.norec THEN 0 ELSE 1)
 
 TrStep ==
     /\ IsEv("S")
@@ -62,7 +68,7 @@ TrStep ==
            THEN \* an empty batch is ignored entirely
                 \* (ages are relative to clk: the clock stays where the last processed batch left it)
                 /\ ln.o = <<>> /\ ln.nf = 0
-                /\ UNCHANGED <<vars, drift, clk>>
+                /\ UNCHANGED <<vars, drift, clk, sent>>
            ELSE LET pts == [i \in 1..n |-> [c |-> ln.pts[i].c, r |-> ln.pts[i].r, off |-> ln.pts[i].t - clk]]
                     tmx == ln.tmax - clk
                     obs == IF ln.o = <<>> THEN None ELSE <<ln.o[1][1], ln.tmax - ln.o[1][2], ln.o[1][3]>>
@@ -76,6 +82,7 @@ TrStep ==
                     /\ drift' = (drift \/ i.out # obs)
                     /\ (~drift /\ i.out # obs) => PrintT(<<"IMPL-DRIFT", l, "impl", i.out, "observed", obs>>)
                     /\ clk' = ln.tmax
+                    /\ sent' = (IF obs = None THEN sent ELSE obs[1])
                     /\ UNCHANGED cfg
 
 TrNext == TrReset \/ TrStep
